@@ -51,6 +51,10 @@ var funcSeams = map[string]map[string]string{
 		"Create": "Create", "OpenFile": "OpenFile", "CreateTemp": "CreateTemp", "Rename": "Rename", "Remove": "Remove",
 		"Getpid": "Getpid", "Hostname": "Hostname"},
 	"time": {"Now": "Now"},
+	// randomness a changed wire might start to use (temporary names, sampling): a plan-seeded stream
+	"math/rand": {"Int": "RandInt", "Intn": "RandIntn", "Int31": "RandInt31", "Int31n": "RandInt31n", "Int63": "RandInt63", "Int63n": "RandInt63n",
+		"Uint32": "RandUint32", "Uint64": "RandUint64", "Float64": "RandFloat64", "Float32": "RandFloat32", "Perm": "RandPerm", "Shuffle": "RandShuffle", "Seed": "RandSeed"},
+	"crypto/rand": {"Read": "CryptoRead"},
 }
 
 // Run instruments the module rooted at dir (a scratch copy!) and returns the seams found.
@@ -310,6 +314,10 @@ func rewriteFile(pkg *packages.Package, f *ast.File, filename string) ([]Site, e
 				record("method", base+":os.File."+mname, n.Pos())
 				ins(n.Pos(), fmt.Sprintf("%s.F%s(", simAlias, mname))
 				add(sel.X.End(), n.Lparen+1, ", ")
+			case isNamed(recv, "os", "File") && (mname == "Close" || mname == "Sync") && len(n.Args) == 0:
+				record("method", base+":os.File."+mname, n.Pos())
+				ins(n.Pos(), fmt.Sprintf("%s.F%s(", simAlias, mname))
+				add(sel.X.End(), n.Lparen+1, "")
 			}
 		case *ast.AssignStmt:
 			for _, l := range n.Lhs {
